@@ -303,7 +303,7 @@ func (*hcli) Run(rc *core.RunCtx) *core.RunResult {
 	c.join = t.Intn(6) == 0
 	c.compact = t.Intn(2) == 0
 	c.slurp = t.Intn(6) == 0
-	c.rawInput = t.Intn(8) == 0
+	c.rawInput = t.Intn(5) == 0
 	c.raw0 = t.Intn(10) == 0
 	c.decode = []string{"", "", "", "probe", "json"}[t.Intn(5)]
 	c.decodeInGroup = t.Intn(3) == 0
